@@ -750,10 +750,10 @@ impl Expression {
                 match ps.peek::<0>() {
                     Some(d) if ('0'..='7').contains(&d) => {
                         // parse as OCT
-                        let mut num = 0i64;
+                        let mut num = RadixInt::default();
                         loop {
-                            let d = ps.next().unwrap() as i64 - '0' as i64;
-                            num = num * 8 + d;
+                            let d = ps.next().unwrap() as u32 - '0' as u32;
+                            num.push(3, d);
                             let Some(peek) = ps.peek::<0>() else { break };
                             if !is_ident_char(peek) {
                                 break;
@@ -765,15 +765,12 @@ impl Expression {
                                 return None;
                             }
                         }
-                        return Some(Box::new(Expression::LitInt {
-                            value: num,
-                            location: pos..ps.position(),
-                        }));
+                        return Some(Box::new(num.finish(pos..ps.position())));
                     }
                     Some('x') => {
                         // parse as HEX
                         ps.next(); // 'x'
-                        let mut num = 0i64;
+                        let mut num = RadixInt::default();
                         let peek = ps.peek::<0>()?;
                         if !peek.is_ascii_hexdigit() {
                             ps.add_warning_at_current_position(
@@ -802,7 +799,7 @@ impl Expression {
                                 'f' | 'F' => 15,
                                 _ => unreachable!(),
                             };
-                            num = num * 16 + d;
+                            num.push(4, d);
                             let Some(peek) = ps.peek::<0>() else { break };
                             if !is_ident_char(peek) {
                                 break;
@@ -814,10 +811,7 @@ impl Expression {
                                 return None;
                             }
                         }
-                        return Some(Box::new(Expression::LitInt {
-                            value: num,
-                            location: pos..ps.position(),
-                        }));
+                        return Some(Box::new(num.finish(pos..ps.position())));
                     }
                     Some('e') | Some('.') | Some('8') | Some('9') => {
                         // do nothing
@@ -838,7 +832,8 @@ impl Expression {
             }
 
             // parse as normal DEC
-            let mut int = Some(0);
+            let mut int = Some(0i64);
+            let mut int_overflowed = false;
             loop {
                 let next = ps.next().unwrap();
                 if next == 'e' {
@@ -872,7 +867,10 @@ impl Expression {
                     // '0'..='9'
                     if let Some(x) = int.as_mut() {
                         let d = next as i64 - '0' as i64;
-                        *x = *x * 10 + d;
+                        match x.checked_mul(10).and_then(|x| x.checked_add(d)) {
+                            Some(v) => *x = v,
+                            None => int_overflowed = true,
+                        }
                     }
                 }
                 let Some(peek) = ps.peek::<0>() else { break };
@@ -888,7 +886,8 @@ impl Expression {
                     return None;
                 }
             }
-            let num = match int {
+            // an integer which does not fit is a float (as it is in JavaScript)
+            let num = match int.filter(|_| !int_overflowed) {
                 None => {
                     let Ok(num) = ps.code_slice(start_index..ps.cur_index()).parse::<f64>() else {
                         ps.add_warning_at_current_position(
@@ -1172,6 +1171,46 @@ impl ParseOperator {
 }
 
 // `=` `+=` `-=` `**=` `*=` `/=` `%=` `<<=` `>>=` `>>>=` `&=` `^=` `|=` `&&=` `||=` `??=` are not allowed
+
+/// An integer literal in a radix which is a power of two.
+///
+/// Digits which do not fit are dropped (remembering whether any was non-zero),
+/// so that the nearest float can be given when the value is not an `i64` (as in JavaScript).
+#[derive(Default)]
+struct RadixInt {
+    value: u128,
+    dropped_bits: u32,
+    sticky: bool,
+}
+
+impl RadixInt {
+    fn push(&mut self, bits: u32, d: u32) {
+        if self.value.leading_zeros() < bits {
+            self.sticky |= d != 0;
+            self.dropped_bits += bits;
+        } else {
+            self.value = (self.value << bits) | d as u128;
+        }
+    }
+
+    fn finish(self, location: Range<Position>) -> Expression {
+        if self.dropped_bits == 0 && self.value <= i64::MAX as u128 {
+            return Expression::LitInt {
+                value: self.value as i64,
+                location,
+            };
+        }
+        let v = if self.sticky {
+            self.value | 1
+        } else {
+            self.value
+        };
+        Expression::LitFloat {
+            value: v as f64 * 2f64.powi(self.dropped_bits as i32),
+            location,
+        }
+    }
+}
 
 fn is_ident_char(ch: char) -> bool {
     ch == '_'
